@@ -106,7 +106,7 @@ def gen_name(r, hostile):
 
 
 def gen_tree(r, bs=4096, nfiles=8, ndirs=3, hostile=False, specials=True, xattrs=False, hardlinks=False,
-             big=False, ids=None, bigdir=0, bigdir_dense=False):
+             big=False, ids=None, bigdir=0, bigdir_dense=False, duptails=0):
     """returns list of Entry (directories before their children)"""
     ents = []
     ids = ids or [0, 0, 1, 1000, 65534, 70000, 0xFFFFFFFE]
@@ -157,6 +157,15 @@ def gen_tree(r, bs=4096, nfiles=8, ndirs=3, hostile=False, specials=True, xattrs
                 e = Entry(p, FILE, content=blk * k + (tailb if suffix == b".2" else b""), **common())
                 ents.append(e)
                 files.append(e)
+    if duptails:
+        # many sub-block files drawn from a few compressible contents: a duplicate tail end regularly arrives while the fragment
+        # block holding its first copy is sealed and submitted but not yet written (the "in flight" fragment block)
+        tpool = [_compressible(r, r.randrange(bs // 8, bs * 3 // 4)) for _ in range(r.choice([3, 5, 8]))]
+        for _ in range(duptails):
+            p = fresh(r.choice(dirs))
+            e = Entry(p, FILE, content=r.choice(tpool) if r.randrange(5) else _compressible(r, r.randrange(1, bs)), **common())
+            ents.append(e)
+            files.append(e)
     if bigdir:
         parent = fresh(b"")
         ents.append(Entry(parent, DIR, **common()))
